@@ -530,3 +530,37 @@ def run_g19_g20(chk, repo):
                           line=nd.line,
                           witness="ModelFeatures.create('ABSORPTION(FO);ELIMINATION(FO)').contain_subset(same, tool='x') "
                                   "is None although a search space contains itself")
+
+
+def run_g22(chk, repo):
+    """G22: a COVARIATE statement stands for the cross product parameter x covariate of ITS OWN lists; two statements with the
+    same effect and operation do not allow the cross pairs between them. ModelFeatures._subset_covariates (the covariate part of
+    contain_subset) must therefore compare (parameter, covariate) PAIRS: every statement that collects the parameters of an
+    evaluated covariate statement pairs them with that statement's covariates in the same expression (product / tuple)."""
+    G22 = chk.rule('G22', 'ModelFeatures._subset_covariates: parameters and covariates of a COVARIATE statement are collected as '
+                          'pairs of that statement, not as two independent sets', floor=2)
+    pm = repo.module('pharmpy.tools.mfl.parse')
+    c = pm.classes.get('ModelFeatures')
+    f = c.methods.get('_subset_covariates') if c else None
+    if f is None:
+        raise AnalysisError('G22: ModelFeatures._subset_covariates not found')
+    n = 0
+    for s in ast.walk(f.node):
+        if not isinstance(s, (ast.Expr, ast.Assign, ast.AugAssign, ast.AnnAssign, ast.Return)):
+            continue
+        if any(isinstance(x, (ast.stmt,)) and x is not s for x in ast.walk(s)):
+            continue
+        pars = [a for a in ast.walk(s) if isinstance(a, ast.Attribute) and a.attr == 'parameter' and isinstance(a.ctx, ast.Load)]
+        for a in pars:
+            n += 1
+            owner = unparse(a.value)
+            paired = any(isinstance(b, ast.Attribute) and b.attr == 'covariate' and unparse(b.value) == owner for b in ast.walk(s))
+            chk.instance(G22, f'_subset_covariates: {unparse(s)[:70]}: paired with {owner}.covariate: {paired}')
+            if not paired:
+                chk.violation(G22, pm.rel, f.qualname, unparse(s)[:90],
+                              f'the parameters of `{owner}` are collected without its covariates: the containment test then '
+                              f'accepts cross pairs between different COVARIATE statements', line=s.lineno,
+                              witness='COVARIATE?(CL,WGT,EXP);COVARIATE?(V,APGR,EXP) is reported to contain '
+                                      'COVARIATE?(CL,APGR,EXP) (contain_subset with a model and tool="covsearch")')
+    if n == 0:
+        raise AnalysisError('G22: no read of <evaluated covariate>.parameter in _subset_covariates')
